@@ -261,7 +261,7 @@ def obligations(tier, seed):
         add("C12/%s.%s.%s" % ("ConvexPolyhedron" if convex else "Polyhedron", sname, batch), polyhedron_body(sname, convex, batch),
             "axis-aligned solid %s, wave vector free; batch form %s" % (sname, batch), paths=3)
     # centres in general position, at the origin, on a coordinate axis and in a coordinate plane
-    for sname, convex in ([("box_off", True), ("cube", False)] if tier == "quick" else [(s, c) for s in SOLIDS for c in ((True, False) if SOLIDS[s][1] is None else (False,))]):
+    for sname, convex in ([("cube", True), ("cube", False)] if tier == "quick" else [(s, c) for s in SOLIDS for c in ((True, False) if SOLIDS[s][1] is None else (False,))]):
         if sname not in SOLIDS:
             continue
         add("C12/%s.%s.single.resized" % ("ConvexPolyhedron" if convex else "Polyhedron", sname), polyhedron_body(sname, convex, "single", resize=True),
